@@ -127,9 +127,10 @@ type node struct {
 func (p *Proxy) OnEvent(event proxycore.Event) {
 	switch evt := event.(type) {
 	case *proxycore.SchemaChangeEvent:
-		frm := frame.NewFrame(p.cluster.NegotiatedVersion, -1, evt.Message)
 		p.eventClients.Range(func(key, _ interface{}) bool {
 			cl := key.(*client)
+			// Encoding a frame updates its header so every client's writer goroutine is given its own frame
+			frm := frame.NewFrame(p.cluster.NegotiatedVersion, -1, evt.Message)
 			err := cl.conn.Write(proxycore.SenderFunc(func(writer io.Writer) error {
 				return cl.codec.EncodeFrame(frm, writer)
 			}))
